@@ -543,3 +543,464 @@ Proof.
   - intros NI. unfold is_special. destruct (memN c cb_special_chars) eqn:E; [|reflexivity].
     exfalso. apply NI. apply special_table_ok. right. apply memN_In. exact E.
 Qed.
+
+(* ================================================================== converter output is in the subset *)
+Lemma part_items_wf p : forallb item_wf (part_items p) = true.
+Proof.
+  unfold part_items. induction (strip_trailing_caret p) as [|c l IH]; [reflexivity|].
+  cbn [map forallb]. rewrite IH, andb_true_r. unfold part_item.
+  destruct (N.eqb c cb_wildcard_char) eqn:E; [reflexivity|]. cbn [item_wf atom_wf]. unfold lit_ok.
+  change cb_wildcard_char with STAR in E. rewrite E. reflexivity.
+Qed.
+Lemma lits_wf h : forallb lit_ok h = true -> forallb item_wf (lits h) = true.
+Proof.
+  unfold lits. induction h as [|c h IH]; cbn [map forallb]; [reflexivity|].
+  intros H. apply andb_true_iff in H as [A B]. rewrite (IH B), andb_true_r. exact A.
+Qed.
+
+Lemma url_filter_items_wf nf r :
+  url_filter_ast nf = Ok (COk r) -> host_ok nf = true -> forallb item_wf (rx_body r) = true.
+Proof.
+  unfold url_filter_ast, host_ok. intros H HO.
+  destruct (has (nf_mask nf) M_IS_HOSTNAME_REGEX);
+  destruct (nf_filter nf) as [|p|]; destruct (nf_hostname nf) as [h|];
+    repeat match type of H with
+      | (if ?b then _ else _) = _ => destruct b
+      end; first [injection H as <- | discriminate H]; cbn [rx_body];
+    cbn [forallb]; rewrite ?forallb_app; cbn [forallb]; rewrite ?part_items_wf; rewrite ?lits_wf by exact HO; reflexivity.
+Qed.
+
+Theorem url_filter_wf nf r :
+  url_filter_ast nf = Ok (COk r) -> host_ok nf = true -> empty_filter_class nf = false -> regex_wf r = true.
+Proof.
+  intros H HO E. unfold regex_wf. rewrite (url_filter_items_wf nf r H HO). cbn [andb].
+  unfold empty_filter_class in E. rewrite H in E. rewrite E. reflexivity.
+Qed.
+
+Theorem convert_network_subset norm nf rules r :
+  convert_network norm nf = Ok (COk rules) -> host_ok nf = true -> empty_filter_class nf = false ->
+  In r rules -> safari_ok (print_regex (r_url r)) = true.
+Proof.
+  intros H HO E I. destruct (convert_network_url _ _ _ H) as (url & U & F). rewrite (F r I).
+  apply printer_subset. eapply url_filter_wf; eauto.
+Qed.
+
+Theorem into_cb_subset norm idna nets coss rules used r :
+  into_content_blocking norm idna true nets coss = Ok (Some (rules, used)) ->
+  Forall (fun nf => host_ok nf = true /\ empty_filter_class nf = false) nets ->
+  In r rules -> safari_ok (print_regex (r_url r)) = true.
+Proof.
+  intros H FN I. destruct (into_cb_origin _ _ _ _ _ _ _ H I) as [(f & rs & J & C & K)|[(f & _ & C)| ->]].
+  - rewrite Forall_forall in FN. destruct (FN f J). eapply convert_network_subset; eauto.
+  - apply convert_cosmetic_inv in C. destruct C as (_ & -> & _). reflexivity.
+  - reflexivity.
+Qed.
+
+(* the pipeline of the three replace_all calls is the printed AST *)
+Lemma part_items_text p :
+  flat_map print_item (part_items p) = fix_wildcards (escape_special (strip_trailing_caret p)).
+Proof.
+  unfold part_items, escape_special, fix_wildcards. induction (strip_trailing_caret p) as [|c l IH]; [reflexivity|].
+  cbn [map flat_map]. rewrite IH, flat_map_app. f_equal. unfold part_item.
+  destruct (N.eqb c cb_wildcard_char) eqn:E.
+  - apply N.eqb_eq in E. subst c. reflexivity.
+  - change (print_item (IAtom (ALit c) QOne)) with (print_lit c ++ []). rewrite app_nil_r. unfold print_lit.
+    destruct (is_special c) eqn:S; cbn [flat_map app]; rewrite E.
+    + replace (N.eqb BSL cb_wildcard_char) with false by reflexivity. reflexivity.
+    + reflexivity.
+Qed.
+Lemma lits_text h : flat_map print_item (lits h) = escape_special h.
+Proof.
+  unfold lits, escape_special. induction h as [|c h IH]; [reflexivity|]. cbn [map flat_map]. rewrite IH.
+  change (print_item (IAtom (ALit c) QOne)) with (print_lit c ++ []). rewrite app_nil_r. reflexivity.
+Qed.
+
+(* non-ASCII patterns and hostnames are rejected *)
+Lemma all_ascii_app a b : all_ascii (a ++ b) = all_ascii a && all_ascii b.
+Proof. unfold all_ascii. apply forallb_app. Qed.
+Lemma print_lit_ascii c : all_ascii (print_lit c) = is_ascii c.
+Proof. unfold print_lit. destruct (is_special c); cbn; rewrite ?andb_true_r; reflexivity. Qed.
+Lemma escape_special_ascii s : all_ascii (escape_special s) = all_ascii s.
+Proof.
+  unfold escape_special. induction s as [|c s IH]; [reflexivity|]. cbn [flat_map]. rewrite all_ascii_app, print_lit_ascii, IH.
+  reflexivity.
+Qed.
+Lemma fix_wildcards_ascii s : all_ascii (fix_wildcards s) = all_ascii s.
+Proof.
+  unfold fix_wildcards. induction s as [|c s IH]; [reflexivity|]. cbn [flat_map]. rewrite all_ascii_app, IH.
+  destruct (N.eqb c cb_wildcard_char) eqn:E.
+  - apply N.eqb_eq in E. subst c. reflexivity.
+  - cbn. rewrite andb_true_r. reflexivity.
+Qed.
+Lemma strip_trailing_caret_ascii s : all_ascii (strip_trailing_caret s) = all_ascii s.
+Proof.
+  induction s as [|c s IH]; [reflexivity|]. destruct s as [|d s].
+  - cbn [strip_trailing_caret]. destruct (N.eqb c cb_trailing_separator_char) eqn:E; [|reflexivity].
+    apply N.eqb_eq in E. subst c. reflexivity.
+  - change (strip_trailing_caret (c :: d :: s)) with (c :: strip_trailing_caret (d :: s)).
+    unfold all_ascii in *. cbn [forallb]. cbn [forallb] in IH. rewrite IH. reflexivity.
+Qed.
+Lemma part_items_ascii p : all_ascii (flat_map print_item (part_items p)) = all_ascii p.
+Proof. rewrite part_items_text, fix_wildcards_ascii, escape_special_ascii. apply strip_trailing_caret_ascii. Qed.
+
+Lemma flat_map_in_ascii {A} (f : A -> str) l x :
+  all_ascii (flat_map f l) = true -> In x l -> all_ascii (f x) = true.
+Proof.
+  induction l as [|y l IH]; cbn [flat_map]; intros H I; [contradiction|].
+  rewrite all_ascii_app in H. apply andb_true_iff in H as [H1 H2]. destruct I as [<-|I]; auto.
+Qed.
+
+Lemma flat_map_all_ascii {A} (f : A -> str) l :
+  (forall x, In x l -> all_ascii (f x) = true) -> all_ascii (flat_map f l) = true.
+Proof.
+  induction l as [|y l IH]; cbn [flat_map]; intros H; [reflexivity|].
+  rewrite all_ascii_app, (H y (or_introl eq_refl)), IH; [reflexivity|]. intros x I. apply H. right. exact I.
+Qed.
+
+Lemma url_filter_contains nf r :
+  url_filter_ast nf = Ok (COk r) ->
+  (forall p i, nf_filter nf = FSimple p -> In i (part_items p) -> In i (rx_body r)) /\
+  (forall h i, nf_hostname nf = Some h -> In i (lits h) -> In i (rx_body r)).
+Proof.
+  unfold url_filter_ast. intros H. split.
+  - intros p i E I. rewrite E in H. destruct (nf_hostname nf) as [h|];
+      repeat match type of H with (if ?b then _ else _) = _ => destruct b end;
+      first [injection H as <- | discriminate H]; cbn [rx_body]; cbn [In]; rewrite ?in_app_iff; tauto.
+  - intros h i E I. rewrite E in H. destruct (nf_filter nf) as [|p|];
+      first [injection H as <- | discriminate H]; cbn [rx_body]; cbn [In]; rewrite ?in_app_iff; tauto.
+Qed.
+
+Theorem url_filter_rejects_non_ascii nf r :
+  url_filter_ast nf = Ok (COk r) -> all_ascii (print_regex r) = true ->
+  (forall p, nf_filter nf = FSimple p -> all_ascii p = true) /\
+  (forall h, nf_hostname nf = Some h -> all_ascii h = true).
+Proof.
+  intros H A.
+  assert (B : all_ascii (flat_map print_item (rx_body r)) = true).
+  { unfold print_regex in A. rewrite !all_ascii_app in A. apply andb_true_iff in A as [_ A].
+    apply andb_true_iff in A as [A _]. exact A. }
+  destruct (url_filter_contains nf r H) as [C1 C2]. split.
+  - intros p E. rewrite <- part_items_ascii. apply flat_map_all_ascii. intros i I.
+    eapply flat_map_in_ascii; [exact B|]. eapply C1; eauto.
+  - intros h E. rewrite <- escape_special_ascii, <- lits_text. apply flat_map_all_ascii. intros i I.
+    eapply flat_map_in_ascii; [exact B|]. eapply C2; eauto.
+Qed.
+
+Theorem convert_network_rejects_non_ascii norm nf rules :
+  convert_network norm nf = Ok (COk rules) ->
+  (forall p, nf_filter nf = FSimple p -> all_ascii p = true) /\
+  (forall h, nf_hostname nf = Some h -> all_ascii h = true).
+Proof.
+  intros H. destruct (convert_network_inv _ _ _ H) as (raw & url & ifd & unl & _ & U & _ & _ & A & _).
+  apply andb_true_iff in A as [A _]. apply andb_true_iff in A as [A _].
+  eapply url_filter_rejects_non_ascii; eauto.
+Qed.
+
+(* ================================================================== totality *)
+Lemma url_filter_total nf : lost_scheme_class nf = false -> is_ok (url_filter_ast nf) = true.
+Proof.
+  unfold lost_scheme_class, needs_scheme, scheme_ok, url_filter_ast.
+  destruct (nf_filter nf) as [|p|]; destruct (nf_hostname nf) as [h|]; try reflexivity;
+    destruct (has (nf_mask nf) M_IS_LEFT_ANCHOR); try reflexivity;
+    destruct (has (nf_mask nf) (N.lor M_FROM_HTTP M_FROM_HTTPS)); try reflexivity;
+    destruct (has (nf_mask nf) M_FROM_HTTP); try reflexivity;
+    destruct (has (nf_mask nf) M_FROM_HTTPS); try reflexivity;
+    destruct (has (nf_mask nf) M_FROM_WEBSOCKET); try reflexivity; intros H; discriminate H.
+Qed.
+
+Lemma reparse_total norm raw : memN DOLLAR raw = true -> is_ok (reparse_domains norm raw) = true.
+Proof.
+  intros H. unfold reparse_domains. destruct (find_byte DOLLAR raw) as [i|] eqn:F.
+  - destruct (find_sub DOMAIN_EQ (drop (S i) raw)) as [j|]; [|reflexivity].
+    destruct (collect_domains norm _) as [[a b] f]. destruct f; reflexivity.
+  - apply find_byte_None in F. apply memN_In in H. contradiction.
+Qed.
+
+Theorem convert_network_total norm nf :
+  lost_scheme_class nf = false -> dollar_ok nf = true -> is_ok (convert_network norm nf) = true.
+Proof.
+  intros LS DO. unfold convert_network.
+  destruct (nf_raw nf) as [raw|] eqn:R; [|reflexivity].
+  repeat match goal with |- is_ok (if ?b then _ else _) = true => destruct b; [reflexivity|] end.
+  pose proof (url_filter_total nf LS) as U.
+  destruct (url_filter_ast nf) as [[url|e]|w]; [|reflexivity|discriminate]. cbn [conv_bind].
+  assert (D : is_ok (if nf_has_dom nf || nf_has_notdom nf then reparse_domains norm raw else Ok (COk (None, None))) = true).
+  { unfold dollar_ok in DO. rewrite R in DO. destruct (nf_has_dom nf || nf_has_notdom nf); [|reflexivity].
+    cbn [negb orb] in DO. apply reparse_total. exact DO. }
+  destruct (if nf_has_dom nf || nf_has_notdom nf then reparse_domains norm raw else Ok (COk (None, None)))
+    as [[[ifd unl]|e]|w]; [|reflexivity|discriminate]. cbn [conv_bind].
+  destruct ifd, unl; try reflexivity;
+    (destruct (resource_type (nf_mask nf)) as [rt|e]; cbn [conv_bind]; [|reflexivity]);
+    match goal with |- is_ok (if ?b then _ else _) = true => destruct b; [reflexivity|] end;
+    (destruct rt as [types|]; [|reflexivity]);
+    match goal with |- is_ok (if ?b then _ else _) = true => destruct b; reflexivity end.
+Qed.
+
+(* the parser finds its options after the last '$'; the converter looks for the first one: whenever
+   the parser saw options at all, the converter's unwrap succeeds *)
+Lemma rfind_find c s i : rfind_byte c s = Some i -> memN c s = true.
+Proof.
+  revert i. induction s as [|x s IH]; cbn [rfind_byte memN]; intros i H; [discriminate|].
+  destruct (rfind_byte c s) as [j|].
+  - rewrite (IH j eq_refl). apply orb_true_r.
+  - destruct (N.eqb x c) eqn:E; [|discriminate]. apply N.eqb_eq in E. subst. rewrite N.eqb_refl. reflexivity.
+Qed.
+Theorem parser_options_dollar line opts :
+  parser_options line = Some opts -> memN DOLLAR line = true /\ find_byte DOLLAR line <> None.
+Proof.
+  unfold parser_options. destruct (rfind_byte DOLLAR line) as [i|] eqn:E; [|discriminate]. intros _.
+  pose proof (rfind_find _ _ _ E) as M. split; [exact M|]. intros F. apply find_byte_None in F.
+  apply memN_In in M. contradiction.
+Qed.
+
+(* cosmetic side *)
+Lemma location_of_total part : is_ok (location_of part) = true.
+Proof.
+  unfold location_of. destruct part as [|c0 t]; [reflexivity|].
+  assert (L : Nat.ltb (if suffixb DOTSTAR (c0 :: t) then (length (c0 :: t) - 2)%nat else length (c0 :: t))
+                      (if N.eqb c0 TILDE then 1%nat else 0%nat) = false).
+  { apply Nat.ltb_ge. destruct (N.eqb c0 TILDE) eqn:T; [|lia].
+    apply N.eqb_eq in T. subst c0.
+    destruct (suffixb DOTSTAR (TILDE :: t)) eqn:S; [|cbn [length]; lia].
+    destruct t as [|x [|y t']]; [discriminate S| discriminate S |]. cbn [length]. lia. }
+  rewrite L.
+  destruct (take _ _) as [|c l]; [reflexivity|]. destruct (N.eqb c SLASH); reflexivity.
+Qed.
+Lemma locations_total parts : is_ok (locations parts) = true.
+Proof.
+  induction parts as [|p r IH]; [reflexivity|]. cbn [locations].
+  pose proof (location_of_total p) as L. destruct (location_of p) as [o|w]; [|discriminate]. cbn [rbind].
+  destruct (locations r) as [l|w]; [reflexivity|discriminate].
+Qed.
+
+Theorem convert_cosmetic_total idna cf : cos_ok cf = true -> is_ok (convert_cosmetic idna cf) = true.
+Proof.
+  unfold cos_ok, convert_cosmetic. intros H. apply andb_true_iff in H as [H1 H2].
+  destruct (cf_has_action cf); [reflexivity|]. destruct (cf_script cf); [reflexivity|].
+  destruct (cf_raw cf) as [raw|]; [|reflexivity].
+  destruct (find_byte SHARP raw) as [sharp|] eqn:F.
+  - pose proof (locations_total (split_on COMMA (take sharp raw))) as L.
+    destruct (locations _) as [locs|w]; [|discriminate].
+    destruct (collect_locations idna locs) as [[hs nhs] unsup].
+    destruct (unsup && is_nil hs && is_nil nhs); [reflexivity|].
+    apply negb_true_iff in H2.
+    destruct (non_empty hs), (non_empty nhs); try reflexivity; destruct (cf_unhide cf); rewrite H2;
+      (destruct (cf_plain cf); [|reflexivity]);
+      match goal with |- is_ok (if ?b then _ else _) = true => destruct b; reflexivity end.
+  - apply find_byte_None in F. apply memN_In in H1. contradiction.
+Qed.
+
+Theorem into_cb_total_concrete norm idna debug nets coss :
+  Forall (fun nf => nf_raw nf <> None /\ lost_scheme_class nf = false /\ dollar_ok nf = true) nets ->
+  Forall (fun cf => cf_raw cf <> None /\ cos_ok cf = true) coss ->
+  is_ok (into_content_blocking norm idna debug nets coss) = true.
+Proof.
+  intros HN HC. unfold into_content_blocking. apply into_cb_total.
+  - eapply Forall_impl; [|exact HN]. intros nf (A & B & C). split; [exact A|]. apply convert_network_total; auto.
+  - eapply Forall_impl; [|exact HC]. intros cf (A & B). split; [exact A|]. apply convert_cosmetic_total; auto.
+Qed.
+
+(* ================================================================== refutation witnesses (findings) *)
+(* `|ws://$~websocket` as parsed by the crate: mask 198399, empty filter, no hostname *)
+Definition ws_neg_rule : netf :=
+  mkNet 198399 FEmpty None false false (Some (bs "|ws://$~websocket")).
+Theorem cb_total_refuted : forall norm,
+  dollar_ok ws_neg_rule = true /\ host_ok ws_neg_rule = true /\ lost_scheme_class ws_neg_rule = true /\
+  convert_network norm ws_neg_rule = Panic UNREACHABLE /\
+  into_content_blocking norm norm true [ws_neg_rule] [] = Panic UNREACHABLE.
+Proof. intros norm. repeat split; vm_compute; reflexivity. Qed.
+
+(* `*^` as parsed by the crate: mask 466943, filter "^", no hostname *)
+Definition sep_only_rule : netf := mkNet 466943 (FSimple [CARET]) None false false (Some (bs "*^")).
+Theorem cb_subset_refuted : forall norm,
+  host_ok sep_only_rule = true /\ lost_scheme_class sep_only_rule = false /\ empty_filter_class sep_only_rule = true /\
+  exists r, convert_network norm sep_only_rule = Ok (COk [r]) /\ print_regex (r_url r) = [] /\
+            safari_ok (print_regex (r_url r)) = false.
+Proof. intros norm. repeat split; try (vm_compute; reflexivity). eexists. repeat split; vm_compute; reflexivity. Qed.
+
+(* ================================================================== examples: hypotheses are satisfiable *)
+Definition ex_mask : N := 204799.   (* default options: all network types, both parties, http+https *)
+Definition ex_host_rule : netf :=
+  mkNet (N.lor ex_mask (N.lor M_IS_HOSTNAME_ANCHOR M_IS_LEFT_ANCHOR)) (FSimple (bs "/ads*.js")) (Some (bs "foo.com"))
+        true false (Some (bs "||foo.com/ads*.js$domain=a.com|b.com")).
+Example ex_host_rule_ok :
+  host_ok ex_host_rule = true /\ empty_filter_class ex_host_rule = false /\
+  lost_scheme_class ex_host_rule = false /\ dollar_ok ex_host_rule = true /\
+  conv_out (convert_network (fun _ => None) ex_host_rule) =
+    Ok (inl [mkOut 0 None (bs "^[^:]+:(//)?([^/]+\.)?foo\.com/ads.*\.js") false
+                   (Some [bs "*a.com"; bs "*b.com"]) None None []]).
+Proof. repeat split; vm_compute; reflexivity. Qed.
+Definition ex_exception : netf :=
+  mkNet (N.lor ex_mask M_IS_EXCEPTION) (FSimple (bs "good")) None false false (Some (bs "@@good")).
+Definition ex_cosmetic : cosf := mkCos (Some (bs "example.com##.ad")) false false false 1 (Some (bs ".ad")).
+Example ex_list_ok :
+  option_map (fun '(rs, used) => (map (fun r => (type_code (r_type r), print_regex (r_url r))) rs, used))
+    (match into_content_blocking (fun _ => None) (fun s => Some s) true [ex_exception; ex_host_rule] [ex_cosmetic]
+     with Ok x => x | Panic _ => None end) =
+  Some ([(0, bs "^[^:]+:(//)?([^/]+\.)?foo\.com/ads.*\.js"); (1, bs ".*"); (2, bs "good"); (2, bs ".*")],
+        [bs "@@good"; bs "||foo.com/ads*.js$domain=a.com|b.com"; bs "example.com##.ad"]).
+Proof. vm_compute. reflexivity. Qed.
+
+(* ================================================================== inclusion for plain patterns *)
+Lemma seq_app {X} (m : X -> str -> Prop) xs ys s t :
+  seq_matches m xs s -> seq_matches m ys t -> seq_matches m (xs ++ ys) (s ++ t).
+Proof.
+  intros H K. induction H as [|x xs s1 s2 Hx Hxs IH]; [exact K|].
+  rewrite <- app_assoc. cbn [app]. constructor; assumption.
+Qed.
+
+Lemma lit_item_match c : item_matches (IAtom (ALit c) QOne) [c].
+Proof. constructor. constructor. cbn. apply N.eqb_refl. Qed.
+
+Lemma lits_match s : seq_matches item_matches (lits s) s.
+Proof.
+  induction s as [|c s IH]; [constructor|]. change (c :: s) with ([c] ++ s).
+  cbn [lits map]. constructor; [apply lit_item_match|exact IH].
+Qed.
+
+Lemma not_in_forallb c s : ~ In c s -> forallb (atom_okb (ANot c)) s = true.
+Proof.
+  intros H. apply forallb_forall. intros x I. cbn. apply negb_true_iff. apply N.eqb_neq. intros ->. contradiction.
+Qed.
+
+Lemma strip_trailing_caret_plain p : ~ In CARET p -> strip_trailing_caret p = p.
+Proof.
+  induction p as [|c p IH]; intros H; [reflexivity|]. destruct p as [|d p].
+  - cbn [strip_trailing_caret]. destruct (N.eqb c cb_trailing_separator_char) eqn:E; [|reflexivity].
+    apply N.eqb_eq in E. exfalso. apply H. left. rewrite E. reflexivity.
+  - change (strip_trailing_caret (c :: d :: p)) with (c :: strip_trailing_caret (d :: p)).
+    rewrite IH; [reflexivity|]. intros I. apply H. right. exact I.
+Qed.
+
+Lemma part_items_plain p : plain p -> part_items p = lits p.
+Proof.
+  intros [HS HC]. unfold part_items. rewrite (strip_trailing_caret_plain p HC). unfold lits.
+  apply map_ext_in. intros c I. unfold part_item. destruct (N.eqb c cb_wildcard_char) eqn:E; [|reflexivity].
+  apply N.eqb_eq in E. exfalso. apply HS. subst c. exact I.
+Qed.
+
+Lemma host_prefix_match scheme a :
+  scheme <> [] -> ~ In COLON scheme -> ~ In SLASH a ->
+  (a = [] \/ exists a', a' <> [] /\ a = a' ++ [DOT]) ->
+  seq_matches item_matches host_prefix_items (scheme ++ COLON :: SLASH :: SLASH :: a).
+Proof.
+  intros NE NC NS HA. unfold host_prefix_items.
+  change (scheme ++ COLON :: SLASH :: SLASH :: a) with (scheme ++ [COLON] ++ [SLASH; SLASH] ++ a).
+  constructor.
+  { constructor. constructor; [exact NE|apply not_in_forallb; exact NC]. }
+  constructor; [apply lit_item_match|].
+  constructor.
+  { apply IM_grp1. change [SLASH; SLASH] with ([SLASH] ++ [SLASH] ++ []).
+    constructor; [constructor; reflexivity|]. constructor; [constructor; reflexivity|constructor]. }
+  rewrite <- (app_nil_r a). constructor; [|constructor].
+  destruct HA as [->|(a' & NE' & ->)]; [apply IM_grp0|].
+  apply IM_grp1. rewrite <- (app_nil_r [DOT]). constructor.
+  - constructor; [exact NE'|]. apply not_in_forallb. intros I. apply NS. apply in_or_app. left. exact I.
+  - constructor; [constructor; reflexivity|constructor].
+Qed.
+
+(* unanchored, |left-anchored and right-anchored| plain patterns without hostname *)
+Theorem plain_inclusion_pattern nf p r url :
+  nf_hostname nf = None -> nf_filter nf = FSimple p -> plain p ->
+  (has (nf_mask nf) M_IS_LEFT_ANCHOR = true \/ has (nf_mask nf) (N.lor M_FROM_HTTP M_FROM_HTTPS) = true) ->
+  url_filter_ast nf = Ok (COk r) ->
+  plain_match (has (nf_mask nf) M_IS_LEFT_ANCHOR) (has (nf_mask nf) M_IS_RIGHT_ANCHOR) p url ->
+  ast_matches r url.
+Proof.
+  unfold url_filter_ast. intros HH HF PL SC U (a & b & -> & LA & RA). rewrite HH, HF in U.
+  assert (E : r = mkRx (has (nf_mask nf) M_IS_LEFT_ANCHOR) (lits p) (has (nf_mask nf) M_IS_RIGHT_ANCHOR)).
+  { rewrite (part_items_plain p PL) in U. destruct (has (nf_mask nf) M_IS_LEFT_ANCHOR); [injection U as <-; reflexivity|].
+    destruct SC as [SC|SC]; [discriminate|]. rewrite SC in U. injection U as <-. reflexivity. }
+  subst r. exists a, p, b. cbn [rx_start rx_body rx_end]. repeat split; auto. apply lits_match.
+Qed.
+
+(* ||h and ||h/path (no wildcard in the hostname), for URLs of the shape scheme://[labels.]h path *)
+Theorem plain_inclusion_host nf h p r url :
+  nf_hostname nf = Some h -> has (nf_mask nf) M_IS_HOSTNAME_REGEX = false ->
+  ((nf_filter nf = FEmpty /\ p = []) \/ (nf_filter nf = FSimple p /\ plain p)) ->
+  url_filter_ast nf = Ok (COk r) ->
+  host_path_match (match nf_filter nf with FEmpty => false | _ => has (nf_mask nf) M_IS_RIGHT_ANCHOR end) h p url ->
+  ast_matches r url.
+Proof.
+  unfold url_filter_ast. intros HH HR HF U (scheme & a & rest & -> & NE & NC & NS & HA & RA). rewrite HH in U.
+  assert (E : rx_start r = true /\ rx_body r = host_prefix_items ++ lits h ++ lits p /\
+              rx_end r = match nf_filter nf with FEmpty => false | _ => has (nf_mask nf) M_IS_RIGHT_ANCHOR end).
+  { destruct HF as [[HF ->]|[HF PL]]; rewrite HF in U |- *.
+    - injection U as <-. cbn [rx_start rx_body rx_end lits map]. rewrite app_nil_r. auto.
+    - rewrite HR, (part_items_plain p PL) in U. injection U as <-. cbn [rx_start rx_body rx_end app]. auto. }
+  destruct E as (E1 & E2 & E3).
+  exists [], (scheme ++ COLON :: SLASH :: SLASH :: a ++ h ++ p), rest.
+  split; [cbn [app]; rewrite <- !app_assoc; cbn [app]; rewrite <- !app_assoc; reflexivity|].
+  split; [|split; [auto|rewrite E3; exact RA]].
+  rewrite E2.
+  replace (scheme ++ COLON :: SLASH :: SLASH :: a ++ h ++ p)
+    with ((scheme ++ COLON :: SLASH :: SLASH :: a) ++ h ++ p)
+    by (rewrite <- app_assoc; cbn [app]; reflexivity).
+  apply seq_app; [apply host_prefix_match; auto|]. apply seq_app; apply lits_match.
+Qed.
+
+(* tie to the converter: every emitted rule carries that url-filter *)
+Theorem convert_network_plain_pattern norm nf rules p url r :
+  convert_network norm nf = Ok (COk rules) -> In r rules ->
+  nf_hostname nf = None -> nf_filter nf = FSimple p -> plain p ->
+  (has (nf_mask nf) M_IS_LEFT_ANCHOR = true \/ has (nf_mask nf) (N.lor M_FROM_HTTP M_FROM_HTTPS) = true) ->
+  plain_match (has (nf_mask nf) M_IS_LEFT_ANCHOR) (has (nf_mask nf) M_IS_RIGHT_ANCHOR) p url ->
+  ast_matches (r_url r) url.
+Proof.
+  intros C I HH HF PL SC M. destruct (convert_network_url _ _ _ C) as (u & U & F). rewrite (F r I).
+  eapply plain_inclusion_pattern; eauto.
+Qed.
+
+Theorem convert_network_plain_host norm nf rules h p url r :
+  convert_network norm nf = Ok (COk rules) -> In r rules ->
+  nf_hostname nf = Some h -> has (nf_mask nf) M_IS_HOSTNAME_REGEX = false ->
+  ((nf_filter nf = FEmpty /\ p = []) \/ (nf_filter nf = FSimple p /\ plain p)) ->
+  host_path_match (match nf_filter nf with FEmpty => false | _ => has (nf_mask nf) M_IS_RIGHT_ANCHOR end) h p url ->
+  ast_matches (r_url r) url.
+Proof.
+  intros C I HH HR HF M. destruct (convert_network_url _ _ _ C) as (u & U & F). rewrite (F r I).
+  eapply plain_inclusion_host; eauto.
+Qed.
+
+(* examples: the hypotheses are satisfiable *)
+Lemma not_memN_not_In c s : memN c s = false -> ~ In c s.
+Proof. intros H I. apply memN_In in I. congruence. Qed.
+Lemma plainb_plain p : negb (memN STAR p) && negb (memN CARET p) = true -> plain p.
+Proof.
+  intros H. apply andb_true_iff in H as [A B]. apply negb_true_iff in A, B.
+  split; apply not_memN_not_In; assumption.
+Qed.
+Definition ex_plain : netf := mkNet ex_mask (FSimple (bs "/ads/")) None false false (Some (bs "/ads/")).
+Example ex_plain_inclusion :
+  exists r, convert_network (fun _ => None) ex_plain = Ok (COk [r]) /\
+            ast_matches (r_url r) (bs "https://x.com/ads/banner.js").
+Proof.
+  eexists. split; [vm_compute; reflexivity|].
+  eapply (convert_network_plain_pattern (fun _ => None) ex_plain _ (bs "/ads/")).
+  - vm_compute. reflexivity.
+  - left. reflexivity.
+  - reflexivity.
+  - reflexivity.
+  - apply plainb_plain. reflexivity.
+  - right. reflexivity.
+  - exists (bs "https://x.com"), (bs "banner.js"). repeat split; discriminate.
+Qed.
+Definition ex_host : netf :=
+  mkNet (N.lor ex_mask (N.lor M_IS_HOSTNAME_ANCHOR M_IS_RIGHT_ANCHOR)) FEmpty (Some (bs "foo.com")) false false (Some (bs "||foo.com^")).
+Example ex_host_inclusion :
+  exists r, convert_network (fun _ => None) ex_host = Ok (COk [r]) /\
+            ast_matches (r_url r) (bs "https://ads.foo.com/x").
+Proof.
+  eexists. split; [vm_compute; reflexivity|].
+  eapply (convert_network_plain_host (fun _ => None) ex_host _ (bs "foo.com") []).
+  - vm_compute. reflexivity.
+  - left. reflexivity.
+  - reflexivity.
+  - reflexivity.
+  - left. split; reflexivity.
+  - exists (bs "https"), (bs "ads."), (bs "/x"). cbn [nf_filter ex_host].
+    split; [reflexivity|]. split; [discriminate|].
+    split; [apply not_memN_not_In; reflexivity|].
+    split; [apply not_memN_not_In; reflexivity|].
+    split; [right; exists (bs "ads"); split; [discriminate|reflexivity]|discriminate].
+Qed.
